@@ -162,9 +162,9 @@ Definition dec_class (w : Z) (d : list Z) (args key : list Z) : Z :=
    site codes (harness file_code): 1 btree/leaf.rs, 2 btree/interior.rs, 3 btree/simd_scan.rs, 9 records/view.rs,
    10 records/jsonb.rs, 11 records/array.rs, 14 sql/decoder.rs, 22 other src/records, 0 outside src;  message classes: 3 arithmetic overflow,
    4 slice / index out of range, 5 unwrap / expect, 7 capacity overflow.
-     (classes 8..11 - find_key_simd beyond the page, leaf.rs / interior.rs reached through SQL, the unchecked
-      catalog length - were repaired in /repo: c8c46cc, 7292838, b949e02)
-     12  a lookup in a page file whose child pointers / leaf chain were made cyclic never ends (watchdog)
+     (classes 8..12 - find_key_simd beyond the page, leaf.rs / interior.rs reached through SQL, the unchecked
+      catalog length, lookups that never return on cyclic child / next_leaf pointers - were repaired in /repo:
+      c8c46cc, 7292838, b949e02, 349eba8; any panic, abort or watchdog timeout outside 13..15 is a violation)
      13  JsonbView accessors slice the entry table / data section unchecked
      14  the row decoders (RecordView getters, sql/decoder.rs schema_fits_record) on record bytes corrupted inside a
          page file: reach of class 14 of the decoder table
@@ -183,7 +183,6 @@ Definition xp_class (kind : Z) (feat : list Z) (o : xout) : Z :=
         if page_file fk && ((site =? 9) || (site =? 14) || (site =? 22)) && (cls =? 4) then 14
         else if (fk =? 2) && (128 <=? off) && ((site =? 9) || (site =? 10) || (site =? 11) || (site =? 22)) && (cls =? 4) then 15
         else 0
-    | XTimeout => if page_file fk then 12 else 0
     | _ => 0
     end
   else 0.
